@@ -16,6 +16,7 @@ import (
 	"github.com/AdguardTeam/AdGuardDNS/internal/errcoll"
 	"github.com/AdguardTeam/AdGuardDNS/internal/profiledb/internal"
 	"github.com/AdguardTeam/AdGuardDNS/internal/profiledb/internal/filecachepb"
+	"github.com/AdguardTeam/AdGuardDNS/internal/verifhook"
 	"github.com/AdguardTeam/golibs/errors"
 	"github.com/AdguardTeam/golibs/logutil/slogutil"
 	"github.com/AdguardTeam/golibs/osutil"
@@ -708,6 +709,8 @@ func (db *Default) profileByDeviceID(
 // removeDevice removes the device with the given ID from the database.  It is
 // intended to be used as a goroutine.
 func (db *Default) removeDevice(ctx context.Context, id agd.DeviceID) {
+	verifhook.Hit("profiledb.removeDevice")
+
 	defer slogutil.RecoverAndExit(ctx, db.logger, osutil.ExitCodeFailure)
 
 	db.mapsMu.Lock()
@@ -719,6 +722,8 @@ func (db *Default) removeDevice(ctx context.Context, id agd.DeviceID) {
 // removeDedicatedIP removes the device link for the given dedicated IP address
 // from the profile database.  It is intended to be used as a goroutine.
 func (db *Default) removeDedicatedIP(ctx context.Context, ip netip.Addr) {
+	verifhook.Hit("profiledb.removeDedicatedIP")
+
 	defer slogutil.RecoverAndExit(ctx, db.logger, osutil.ExitCodeFailure)
 
 	db.mapsMu.Lock()
@@ -786,6 +791,8 @@ func (db *Default) ProfileByHumanID(
 // removeHumanID removes the device link for the given key from the profile
 // database.  It is intended to be used as a goroutine.
 func (db *Default) removeHumanID(ctx context.Context, k humanIDKey) {
+	verifhook.Hit("profiledb.removeHumanID")
+
 	defer slogutil.RecoverAndExit(ctx, db.logger, osutil.ExitCodeFailure)
 
 	db.mapsMu.Lock()
@@ -851,6 +858,8 @@ func (db *Default) ProfileByLinkedIP(
 // removeLinkedIP removes the device link for the given linked IP address from
 // the profile database.  It is intended to be used as a goroutine.
 func (db *Default) removeLinkedIP(ctx context.Context, ip netip.Addr) {
+	verifhook.Hit("profiledb.removeLinkedIP")
+
 	defer slogutil.RecoverAndExit(ctx, db.logger, osutil.ExitCodeFailure)
 
 	db.mapsMu.Lock()
